@@ -133,6 +133,9 @@ impl ArgumentDeclaration {
 pub struct ArgumentInvocation {
     pub(crate) positional: Vec<AstExpr>,
     pub(crate) named: BTreeMap<Identifier, AstExpr>,
+    /// The names of `named` in the order they were written, which is the order
+    /// their expressions are evaluated in.
+    pub(crate) named_order: Vec<Identifier>,
     pub(crate) rest: Option<AstExpr>,
     pub(crate) keyword_rest: Option<AstExpr>,
     pub(crate) span: Span,
@@ -143,6 +146,7 @@ impl ArgumentInvocation {
         Self {
             positional: Vec::new(),
             named: BTreeMap::new(),
+            named_order: Vec::new(),
             rest: None,
             keyword_rest: None,
             span,
